@@ -49,7 +49,18 @@ fn walk(e: &tast::Expr, out: &mut Vec<Value>) {
                 out.push(json!({"s": s, "e": e, "ty": ty.to_pretty(80), "what": "use", "name": name}));
             }
         }
-        EPrim { .. } | ETraitMethod { .. } | EDynTraitMethod { .. } | EInherentMethod { .. } => {}
+        EPrim { .. } => {}
+        // the callee of a method call: `x.m` / `T::m` / `Tr::m`; its type is the method's type at this call (instantiated)
+        EInherentMethod { method_name, ty, astptr, .. } => {
+            if let Some((s, e)) = range_of(astptr) {
+                out.push(json!({"s": s, "e": e, "ty": ty.to_pretty(80), "what": "field", "name": method_name.0, "node": "inherent-method"}));
+            }
+        }
+        ETraitMethod { method_name, ty, astptr, .. } | EDynTraitMethod { method_name, ty, astptr, .. } => {
+            if let Some((s, e)) = range_of(astptr) {
+                out.push(json!({"s": s, "e": e, "ty": ty.to_pretty(80), "what": "field", "name": method_name.0, "node": "trait-method"}));
+            }
+        }
         EConstr { args, .. } => args.iter().for_each(|a| walk(a, out)),
         ETuple { items, .. } | EArray { items, .. } => items.iter().for_each(|a| walk(a, out)),
         EClosure { params, body, .. } => {
@@ -84,6 +95,17 @@ fn walk(e: &tast::Expr, out: &mut Vec<Value>) {
         EGo { expr, .. } | EUnary { expr, .. } | EToDyn { expr, .. } => walk(expr, out),
         ECall { func, args, .. } => {
             walk(func, out);
+            // `recv.m(..)`: the method node carries no position; the method name follows the receiver (the first argument) and a
+            // dot.  Recorded with the receiver's end; `oracle` keeps it only if the text there really is `.m`.
+            if let EInherentMethod { method_name, ty, .. } | ETraitMethod { method_name, ty, .. } | EDynTraitMethod { method_name, ty, .. } = func.as_ref() {
+                let recv_range = match args.first() {
+                    Some(EVar { astptr, .. }) | Some(EField { astptr, .. }) => range_of(astptr),
+                    _ => None,
+                };
+                if let Some((_, e)) = recv_range {
+                    out.push(json!({"after": e, "ty": ty.to_pretty(80), "what": "method", "name": method_name.0}));
+                }
+            }
             args.iter().for_each(|a| walk(a, out))
         }
         EProj { tuple, .. } => walk(tuple, out),
@@ -100,6 +122,35 @@ fn walk(e: &tast::Expr, out: &mut Vec<Value>) {
     }
 }
 
+/// turn the `method` records (position = end of the receiver) into ranges of the method name, when the text has `.name` there
+fn place_methods(out: Vec<Value>, text: &str) -> Vec<Value> {
+    let bytes = text.as_bytes();
+    out.into_iter()
+        .filter_map(|v| {
+            if v["what"] != "method" {
+                return Some(v);
+            }
+            let mut at = v["after"].as_u64()? as usize;
+            let name = v["name"].as_str()?.to_string();
+            while at < bytes.len() && (bytes[at] == b' ' || bytes[at] == b'\n') {
+                at += 1;
+            }
+            if at >= bytes.len() || bytes[at] != b'.' {
+                return None;
+            }
+            at += 1;
+            if !bytes[at..].starts_with(name.as_bytes()) {
+                return None;
+            }
+            let end = at + name.len();
+            if end < bytes.len() && (bytes[end].is_ascii_alphanumeric() || bytes[end] == b'_') {
+                return None;
+            }
+            Some(json!({"s": at, "e": end, "ty": v["ty"], "what": "use", "name": name, "node": "method-name"}))
+        })
+        .collect()
+}
+
 fn oracle(path: &Path, text: &str) -> Value {
     match compiler::pipeline::pipeline::compile(path, text) {
         Ok(c) => {
@@ -111,7 +162,7 @@ fn oracle(path: &Path, text: &str) -> Value {
                     _ => {}
                 }
             }
-            Value::from(out)
+            Value::from(place_methods(out, text))
         }
         Err(_) => Value::Null,
     }
